@@ -73,5 +73,25 @@ async fn main() {
     println!("p1 null b -> {:?}", r.as_ref().map(|_| ()).map_err(|e| e.to_string()));
     for w in ["alpha", "third"] { println!("  p1 search {} -> {}", w, search(&net, 1, w).await); }
     let n = net.dump_nodes(1, room).await; for r in n { println!("  p1 row {:?} {:?} rowid {}", b64(&r.id), r.json, r.rowid); }
+    // K3 drain: rows with long texts arrive by synchronisation on p1, then are edited locally
+    let mut ids = vec![];
+    for i in 0..4 {
+        let r = net.peers[0].db.mutate_raw("mutate { ns.Doc{ room_id:$room_id a:$a } }", Some(mk(&format!("long text number {} with many trigrams", i)))).await.unwrap();
+        ids.push(r.mutate_entities[0].node_to_mutate.id);
+    }
+    net.barrier(0).await;
+    let tr = net.pull(1, 0, room, T0 + 9000).await;
+    println!("pull 1<-0 requested {} ; p1: {}", tr.requested.len(), fts_state(&net, 1).await);
+    for (i, id) in ids.iter().enumerate() {
+        let mut p = Parameters::default(); p.add("id", b64(id)).unwrap(); p.add("a", "abc".to_string()).unwrap();
+        let r = net.peers[1].db.mutate_raw("mutate { ns.Doc{ id:$id a:$a } }", Some(p)).await;
+        println!("p1 edit {} -> {:?} ; {}", i, r.as_ref().map(|_| ()).map_err(|e| e.to_string()), fts_state(&net, 1).await);
+        println!("  p1 search abc -> {}", search(&net, 1, "abc").await);
+        println!("  p1 search alpha -> {}", search(&net, 1, "alpha").await);
+    }
+    let mut p = Parameters::default(); p.add("room_id", b64(&room)).unwrap(); p.add("a", "fresh row".to_string()).unwrap();
+    let r = net.peers[1].db.mutate_raw("mutate { ns.Doc{ room_id:$room_id a:$a } }", Some(p)).await;
+    println!("p1 create -> {:?} ; {}", r.as_ref().map(|_| ()).map_err(|e| e.to_string()), fts_state(&net, 1).await);
+    println!("  p1 search fresh -> {}", search(&net, 1, "fresh").await);
     net.cleanup();
 }
